@@ -10,7 +10,7 @@ MB_SHORTS = ["é", "ü", "日", "ß", "Ω", "😀"]
 
 DEFAULT_PROFILE = dict(
     n_opts=(1, 6), p_short=0.6, p_long=0.75, p_mb_short=0.08, p_desc=0.3, p_default=0.2, p_required=0.12, p_optional=0.1,
-    p_choice=0.1, p_env=0.1, p_hidden=0.08, p_valname=0.1, p_mask=0.05, p_ininame=0.05, p_noini=0.03, p_base=0.1, p_unquote_false=0.03,
+    p_choice=0.1, p_env=0.1, p_hidden=0.08, p_valname=0.1, p_mask=0.05, p_ininame=0.05, p_inicross=0.0, p_noini=0.03, p_base=0.1, p_unquote_false=0.03,
     p_group=0.25, p_ptr_group=0.4, p_nil_ptr=0.5, p_namespace=0.5, p_plain_nested=0.08, p_unexported=0.05, p_untagged=0.1, p_noflag=0.03,
     p_commands=0.45, max_depth=2, n_cmds=(1, 3), p_alias=0.3, p_cmd_hidden=0.1, p_subopt=0.25, p_exec=0.6, p_exec_err=0.2,
     p_tagcmd=0.5, p_positional=0.3, n_pos=(1, 3), p_pos_slice=0.4, p_pos_required=0.4,
@@ -73,6 +73,7 @@ class Gen:
         self.used_long = set()
         self.used_short = set()
         self.fname = 0
+        self.longs = []          # (namespace tuple, long name) of the options generated so far
 
     def chance(self, key):
         return self.rng.random() < self.p[key]
@@ -126,6 +127,10 @@ class Gen:
         if kind == "custom": return strgen.rstr(r, 5, p_bad=0.02)
         # string
         x = r.random()
+        if self.p.get("p_long_value", 0.0) and getattr(self, "in_argv", False) and r.random() < self.p["p_long_value"]:
+            # longer than bufio's 4096-byte buffer: the INI reader reassembles such lines from chunks
+            n = r.choice([4080, 4096, 4100, 5000, 9000])
+            return (strgen.rstr(r, 6, p_bad=0) + b"0123456789abcdef" * (n // 16 + 1))[:n] + r.choice([b"", b"Z", b" end", b'"'])
         if x < 0.55: return strgen.rstr(r, 6, p_bad=0.02)
         if x < 0.7: return r.choice([b"", b"=", b"=x", b"-", b"--", b"-x", b"--name", b"a b", b" lead", b"trail ", b"a=b", b"a:b", b"\"", b"\"q\"", b"'", b"\\", b"x\"y", b"-1", b"-.5", b"%d", b"\xff"])
         return units.wild(r, 6)
@@ -151,6 +156,10 @@ class Gen:
             vt = self.scalar_text(t[2], base, valid)
             x = r.random()
             if x < 0.06 and (t[2] in ("string", "bool", "custom") or not valid): return kt            # no colon: empty value
+            if x < 0.16 and (t[2] in ("string", "custom") or x < 0.09):
+                # further colons belong to the value (SplitN at the first one)
+                vt = r.choice([vt + b":" + vt, b"http://host:80", b":", b"::", vt + b":", b":" + vt, b"12:30:05", b"true:x"])
+                if t[2] == "custom": vt = vt.lstrip(b"!") or b"c"
             return kt + b":" + vt
         if t[0] == "func": return self.scalar_text(t[1], base, valid) if t[1] else b""
         raise ValueError(t)
@@ -189,8 +198,20 @@ class Gen:
         raise ValueError(t)
 
     # ---------------------------------------------------------------- names
-    def new_long(self, scope):
+    def new_long(self, scope, ns=()):
         r = self.rng
+        if self.p.get("p_nsclash", 0.0) and r.random() < self.p["p_nsclash"]:
+            # a long name whose namespaced spelling coincides with that of an option of another group
+            # (top-level db.host vs host inside namespace db, at any nesting): the duplicate check must see it
+            pre = b".".join(ns) + b"." if ns else b""
+            cands = []
+            for ns2, l2 in self.longs:
+                q2 = b".".join(list(ns2) + [l2])
+                if ns2 != tuple(ns) and q2.startswith(pre) and len(q2) > len(pre):
+                    cands.append(q2[len(pre):])
+            if not ns: cands.append(r.choice([b"sub", b"db", b"x"]) + b"." + r.choice(WORDS[:5]).encode())
+            else: cands.append(r.choice(WORDS[:5]).encode())
+            return r.choice(cands)
         for _ in range(50):
             w = r.choice(WORDS)
             x = r.random()
@@ -221,7 +242,7 @@ class Gen:
         return b" ".join(parts)
 
     # ---------------------------------------------------------------- fields
-    def gen_option(self, scope, exported=True):
+    def gen_option(self, scope, exported=True, ns=()):
         r = self.rng
         self.fid += 1
         self.fname += 1
@@ -230,7 +251,9 @@ class Gen:
         kvs = []
         short = long = None
         if self.chance("p_short"): short = self.new_short(scope)
-        if self.chance("p_long") or short is None: long = self.new_long(scope)
+        if self.chance("p_long") or short is None:
+            long = self.new_long(scope, ns)
+            self.longs.append((tuple(ns), long))
         if self.chance("p_long_short") and short: short = short + r.choice([b"x", "é".encode()])
         if short: kvs.append((b"short", short))
         if long: kvs.append((b"long", long))
@@ -282,7 +305,16 @@ class Gen:
             kvs.append((b"hidden", v)); info["hidden"] = v != b"false"
         if self.chance("p_valname"): kvs.append((b"value-name", r.choice([b"FILE", b"N", "WERT".encode(), "名".encode()])))
         if self.chance("p_mask"): kvs.append((b"default-mask", r.choice([b"-", b"****", b"<secret>"])))
-        if self.chance("p_ininame"): kvs.append((b"ini-name", r.choice([b"ini_a", b"IniB", b"other"]) + str(fid).encode()))
+        if self.chance("p_inicross"):
+            # an ini-name that is also another option's field / long / short name: exercises the
+            # ini-name > field > long > short priority of Group.optionByName across (sub)groups
+            x = r.random()
+            if x < 0.45: cross = ("F%d" % (self.fname + r.randint(1, 6))).encode()
+            elif x < 0.55: cross = ("f%d" % (self.fname + r.randint(1, 6))).encode()
+            elif x < 0.9: cross = r.choice(WORDS).encode()
+            else: cross = r.choice(SHORTS).encode()
+            kvs.append((b"ini-name", cross))
+        elif self.chance("p_ininame"): kvs.append((b"ini-name", r.choice([b"ini_a", b"IniB", b"other"]) + str(fid).encode()))
         if self.chance("p_noini"): kvs.append((b"no-ini", b"true"))
         if self.chance("p_unquote_false"):
             kvs.append((b"unquote", b"false")); info["unquote"] = False
@@ -328,14 +360,14 @@ class Gen:
             if x < self.p["p_untagged"]:
                 fields.append(self.gen_plain_field())
             elif x < self.p["p_untagged"] + self.p["p_unexported"]:
-                f, _ = self.gen_option(scope, exported=False)
+                f, _ = self.gen_option(scope, exported=False, ns=ns)
                 fields.append(f)
             elif x < self.p["p_untagged"] + self.p["p_unexported"] + self.p["p_noflag"]:
-                f, _ = self.gen_option(scope)
+                f, _ = self.gen_option(scope, ns=ns)
                 f["tag"] = f["tag"] + b' no-flag:"1"'
                 fields.append(f)
             else:
-                f, info = self.gen_option(scope)
+                f, info = self.gen_option(scope, ns=ns)
                 info["ns"] = ns
                 info["envns"] = envns
                 info["gdesc"] = gdesc
@@ -619,10 +651,18 @@ class Gen:
             else: toks.extend([name, v])
 
     def gen_argv(self, sc):
+        self.in_argv = True        # very long values only on the command line (tags and environment stay short)
+        try:
+            return self.gen_argv_inner(sc)
+        finally:
+            self.in_argv = False
+
+    def gen_argv_inner(self, sc):
         r = self.rng
         node = sc["meta"]
         chain = [node]
         toks = []
+        used = []
         lo, hi = self.p["n_events"]
         n = r.randint(lo, hi)
         pe = [("opt", self.p["p_ev_opt"]), ("cmd", self.p["p_ev_cmd"]), ("plain", self.p["p_ev_plain"]), ("term", self.p["p_ev_term"]),
@@ -654,9 +694,27 @@ class Gen:
                             continue
                     toks.append(cl)
                     continue
-                self.spell(sc, r.choice(pool), toks)
+                # repeated occurrences of an option used earlier (also across command words) are common
+                if used and r.random() < self.p.get("p_repeat_opt", 0.3):
+                    cand = [o for o in used if o in pool]
+                    o = r.choice(cand) if cand else r.choice(pool)
+                else:
+                    o = r.choice(pool)
+                used.append(o)
+                self.spell(sc, o, toks)
             elif ev == "cmd":
-                if cur["subs"]:
+                sib = [x for c in chain[:-1] for x in c["subs"] if x is not cur]
+                if sib and r.random() < self.p.get("p_sibling_cmd", 0.15):
+                    # the name of a sibling (or of an ancestor's sibling): not a command here, and its options stay unknown
+                    x = r.choice(sib)
+                    nm = r.choice([x["name"]] + x["aliases"])
+                    down = [c2 for c2 in cur["subs"] if nm == c2["name"] or nm in c2["aliases"]]
+                    toks.append(nm)
+                    if down:
+                        chain.append(down[-1])
+                    elif x["opts"] and r.random() < 0.6:
+                        self.spell(sc, r.choice(x["opts"]), toks)
+                elif cur["subs"]:
                     s = r.choice(cur["subs"])
                     toks.append(r.choice([s["name"]] + s["aliases"]))
                     chain.append(s)
